@@ -231,6 +231,30 @@ CLAIMED = {
                   "per-case verdicts",
         design_ref="5/C01"),
 
+    "C02": dict(
+        category="model_checking",
+        text="Fixed.tla gives fixed-point semantics as executable definitions over exact rationals (pairs of wide "
+             "two's-complement words): the value of integer / fixed-point variables, registers, integer and decimal "
+             "constants; sums, differences, products, true division (always fixed point), floor division (always "
+             "integer), remainder and the six comparisons; the result dropped to the destination by floor or by "
+             "truncation (both admissible); and the property's precondition (operands at the finest scale the "
+             "operation needs and the scaled exact result fit 64 signed bits, divisor non-zero). Statements "
+             "`dst = a OP b` and `with a CMP b: ... Else ...` over ordered pairs of six operand kinds are built with "
+             "the real classes; decimal constants reach the real code as Python floats made from decimal strings "
+             "(0.29, 0.1, 0.57, 1.15, 0.00001, 99999.99999: none exactly representable in binary) while the "
+             "specification is given their exact scaled integers; fixed-point inputs are assigned from Python through "
+             "the real descriptor and the specification checks the stored bytes are the exact scaled integer. TLC "
+             "executes the emitted bytecode on the eBPF machine and judges the destination bytes / the markers; the "
+             "result is read back through the real Python descriptor and must be the float nearest to raw/100000.",
+        note="Depth-1 statements and sampled input values (boundary and fixed-seed), 8-byte operands only. Outside "
+             "the precondition a case is skipped, never judged. One recorded known finding (F1: division emitted "
+             "unsigned) is matched by a flag the spec computes by stepping the case's own bytecode: a DIV or MOD "
+             "executes on a negative operand; a statement that has that AND another defect is attributed to it. The "
+             "Python-side read back is compared in Python (float division is outside TLA+).",
+        technique="TLA+ denotation Fixed (exact rationals) + TLC executing the real emitted bytecode on the eBPF "
+                  "machine Ebpf.tla; per-case verdicts; Python-side store bound through the spec",
+        design_ref="5/C02"),
+
     "C03": dict(
         category="model_checking",
         text="Dsl.tla defines the truth value of conditions (six comparison operators on exact values, truth and "
@@ -369,6 +393,29 @@ CLAIMED = {
         technique="TLC computes the transition table from the real dispatcher + group bytecode (kernel cross-checked); "
                   "exhaustive BFS over frame histories on that table",
         design_ref="5/C22"),
+
+    "C04": dict(
+        category="model_checking",
+        text="VarFrame.tla is the reference: a store with one cell per declared variable in which a statement changes "
+             "exactly one cell; temporaries, saved registers and spilled values do not exist in it. Programs are built "
+             "with the real classes: a main XDP program with 1-5 locals of every format, array-map, hash-map and packet "
+             "variables, optionally a Dict whose key and value members live on the stack, and 0-2 sub-program "
+             "instances (of one class or of two) with their own locals and array-map variables; every stack variable "
+             "is initialised, 2-9 random statements assign one variable from a constant, from a variable of the same "
+             "format or from a variable plus a constant (hash-map accesses need key temporaries, spilled values and "
+             "saved registers; Dict.update() reads the members), then the program itself copies every stack variable "
+             "into an array variable of its own. TLC executes the emitted bytecode on the eBPF machine from random "
+             "initial memory and compares every observable variable (array, hash and packet memory) with the store.",
+        note="Random programs (fixed seed plus a share following VERIF_SEED), not all programs; stack variables are "
+             "observed through the program's own later reads, so a temporary reusing the slot of a variable nobody "
+             "reads any more is not reported. A program that does not run to its end on the machine is not judged here "
+             "(the same programs are part of C05's corpus). One recorded known finding (F34: sub-program instances "
+             "share one stack frame) is matched exactly: the spec re-runs the statements on a second store in which "
+             "only the sub-program locals share a byte memory at their real addresses, and the final values must be "
+             "precisely that store's.",
+        technique="TLA+ reference store VarFrame + TLC executing the real emitted bytecode on the eBPF machine "
+                  "Ebpf.tla; per-program verdicts",
+        design_ref="5/C04"),
 
     "C05": dict(
         category="model_checking",
